@@ -3,14 +3,16 @@
 # Applies a seeded change to /repo, runs the given checks, and ALWAYS restores /repo afterwards.
 # Never commits anything in /repo. Exit code: number of checks that stayed silent (0 = all caught it).
 patch="$1"; tier="$2"; shift 2
+# SEED_REPO=<scratch worktree>: apply the change there instead of /repo (own build directories, /repo untouched)
+R="${SEED_REPO:-/repo}"
 cd /verif || exit 99
-if [ -n "$(git -C /repo status --porcelain --untracked-files=no)" ]; then echo "/repo has local edits; refusing"; exit 98; fi
-if ! git -C /repo apply --check "$patch" 2>/dev/null; then echo "patch does not apply: $patch"; exit 97; fi
-git -C /repo apply "$patch"
-trap 'git -C /repo checkout -- . ; git -C /repo clean -fdq -- crates python 2>/dev/null' EXIT INT TERM
+if [ -n "$(git -C "$R" status --porcelain --untracked-files=no)" ]; then echo "/repo has local edits; refusing"; exit 98; fi
+if ! git -C "$R" apply --check "$patch" 2>/dev/null; then echo "patch does not apply: $patch"; exit 97; fi
+git -C "$R" apply "$patch"
+trap 'git -C "$R" checkout -- . ; git -C "$R" clean -fdq -- crates python 2>/dev/null' EXIT INT TERM
 silent=0
 for id in "$@"; do
-  out=$(VERIF_SCRATCH=/tmp/seedrun bin/check "$id" --tier "$tier" 2>/dev/null); rc=$?
+  out=$(VERIF_REPO_DIR="$R" VERIF_SCRATCH=/tmp/seedrun${SEED_REPO:+_alt} bin/check "$id" --tier "$tier" 2>/dev/null); rc=$?
   echo "$out" | grep -E "^VIOLATION|^  class=|^KNOWN|$id $tier:" | cut -c1-330
   echo "== $id exit=$rc"
   [ $rc -eq 1 ] || silent=$((silent+1))
